@@ -139,6 +139,10 @@ pub fn alphabet_texts() -> Vec<&'static str> {
     r#""A""#,
     r#""é""#,
     r#""🙏""#,
+    // a character of the last BMP block next to one beyond the BMP: code point order, not UTF-16 order
+    "\"\u{FB01}\"",
+    "\"\u{E000}a\"",
+    "\"\u{1F600}\"",
     r#"date("2021-02-03")"#,
     r#"date("2021-02-04")"#,
     r#"date("2020-02-29")"#,
@@ -147,6 +151,11 @@ pub fn alphabet_texts() -> Vec<&'static str> {
     r#"time("10:11:12Z")"#,
     r#"time("11:11:12+01:00")"#,
     r#"time("10:11:13")"#,
+    // values that differ in the fraction of the second only
+    r#"time("10:11:12.25")"#,
+    r#"time("10:11:12.5")"#,
+    r#"date and time("2021-02-03T10:11:12.25")"#,
+    r#"date and time("2021-02-03T10:11:12.5")"#,
     r#"date and time("2021-02-03T10:11:12")"#,
     r#"date and time("2021-02-03T10:11:12Z")"#,
     r#"date and time("2021-02-03T11:11:12+01:00")"#,
